@@ -171,6 +171,8 @@ def run_ops(binary, args, text, timeout=3000):
                        text=True, timeout=timeout)
     if p.returncode != 0:
         raise MachineryError(f"{binary} exited {p.returncode}: {p.stderr[-2000:]}")
+    if p.stdout == "":
+        return []
     return p.stdout.split("\n")[:-1] if p.stdout.endswith("\n") else p.stdout.split("\n")
 
 
@@ -256,6 +258,8 @@ class DResult:
 def differential(cases, seeds=(1,), keep_samples=6):
     """run implementation and model on the same op lines, compare byte for byte"""
     res = DResult()
+    if not cases:
+        return res
     for seed in seeds:
         text = f"seed {seed}\n" + "".join(c.line() + "\n" for c in cases)
         impl = run_ops(BIN_IMPL, ["run"], text)
